@@ -1129,22 +1129,44 @@ func (st *State) execSwitch(sw *ssautil.Switch) (next, pred *ssa.BasicBlock, ok 
 		cond *smt.Term
 	}
 	var groups []*group
-	byBody := map[*ssa.BasicBlock]*group{}
-	for _, cc := range sw.ConstCases {
-		if len(cc.Body.Instrs) > 0 {
-			if _, isPhi := cc.Body.Instrs[0].(*ssa.Phi); isPhi {
-				return nil, nil, false
+	byKey := map[string]*group{}
+	// phiKey: the values the body's phis receive when entered from pred; two
+	// cases may share a decision only if they agree on the target AND on these
+	phiKey := func(body, pred *ssa.BasicBlock) (string, bool) {
+		idx := -1
+		for i, p := range body.Preds {
+			if p == pred {
+				idx = i
+				break
 			}
 		}
+		key := fmt.Sprintf("%p", body)
+		for _, in := range body.Instrs {
+			phi, ok := in.(*ssa.Phi)
+			if !ok {
+				break
+			}
+			if idx < 0 {
+				return "", false
+			}
+			key += fmt.Sprintf("|%p", phi.Edges[idx])
+		}
+		return key, true
+	}
+	for _, cc := range sw.ConstCases {
 		kv, isC := st.constValue(cc.Value).(*smt.Term)
 		if !isC || kv.W != xv.W {
 			return nil, nil, false
 		}
+		key, ok := phiKey(cc.Body, cc.Block)
+		if !ok {
+			return nil, nil, false
+		}
 		eq := st.c.Eq(xv, kv)
-		g := byBody[cc.Body]
+		g := byKey[key]
 		if g == nil {
 			g = &group{body: cc.Body, pred: cc.Block, cond: eq}
-			byBody[cc.Body] = g
+			byKey[key] = g
 			groups = append(groups, g)
 		} else {
 			g.cond = st.c.BOr(g.cond, eq)
